@@ -35,6 +35,9 @@ var selectors = []*selgen.Sel{
 	{Op: 'f', Fields: []string{"a", "c"}, Subs: []*selgen.Sel{{Op: '|', Subs: []*selgen.Sel{matcher, {Op: 'a', Subs: []*selgen.Sel{matcher}}}}, {Op: 'a', Subs: []*selgen.Sel{matcher}}}},
 	{Op: 'R', LimitNone: true, Subs: []*selgen.Sel{{Op: '|', Subs: []*selgen.Sel{matcher, {Op: '|', Subs: []*selgen.Sel{{Op: 'r', Start: 0, End: 2, Subs: []*selgen.Sel{edge}}, {Op: 'f', Fields: []string{"a"}, Subs: []*selgen.Sel{edge}}}}}}}},
 	{Op: 'a', Subs: []*selgen.Sel{{Op: 'r', Start: 0, End: 3, Subs: []*selgen.Sel{matcher}}}},
+	// selectors that are terminal at the link targets they reach
+	{Op: 'a', Subs: []*selgen.Sel{matcher}},
+	{Op: 'a', Subs: []*selgen.Sel{{Op: '|', Subs: []*selgen.Sel{matcher, matcher}}}},
 }
 
 func compile(s *selgen.Sel) selector.Selector {
@@ -138,6 +141,36 @@ func HLinkBudget() {
 			nd.Assert(same(r.vs[i], u.vs[i]), "the visits made are the first visits of the unrestricted walk")
 		}
 	}
+}
+
+// HLinkBudgetOtherWalks: the link budget bounds block loads in the matching and the transforming
+// walk just as in the visiting walk.
+func HLinkBudgetOtherWalks() {
+	g, sel, cfg, u := setup()
+	l := nd.Int64("budget")
+	nd.Assume(l >= 0)
+	form := nd.Choose("form", 2)
+	g.Opens = nil
+	var err error
+	nd.NoPanic("walk", func() {
+		prog := traversal.Progress{Cfg: cfg, Budget: &traversal.Budget{NodeBudget: 1 << 40, LinkBudget: l}}
+		if form == 0 {
+			err = prog.WalkMatching(g.Root, sel, func(traversal.Progress, datamodel.Node) error { return nil })
+		} else {
+			_, err = prog.WalkTransforming(g.Root, sel, func(p traversal.Progress, n datamodel.Node) (datamodel.Node, error) { return n, nil })
+		}
+	})
+	nd.Assert(int64(len(g.Opens)) <= l, "no walk form loads more blocks than the link budget allows")
+	if form == 0 {
+		if l >= int64(len(u.opens)) {
+			nd.Assert(err == nil && len(g.Opens) == len(u.opens), "a sufficient link budget changes nothing")
+		} else {
+			nd.Assert(isBudget(err) && int64(len(g.Opens)) == l, "an insufficient link budget ends the matching walk with a budget-exceeded error after exactly L loads")
+		}
+	} else if err == nil {
+		nd.Reach("transformed")
+	}
+	nd.Reach("end")
 }
 
 // HStartAt: a start path taken from the unrestricted sequence yields exactly its tail.
